@@ -46,6 +46,17 @@ def tx_event(call):
     return TX_KIND.get(" ".join(t.lower().split()))
 
 
+def tx_literal(call):
+    """The normalised SQL text of a transaction-control sqlite3_exec ('begin', 'rollback to s', ...) or None."""
+    if call.get("callee") != "sqlite3_exec" or len(call.get("args", [])) < 2:
+        return None
+    t = literal_text(call["args"][1])
+    if t is None:
+        return None
+    t = " ".join(t.lower().split())
+    return t if t in TX_KIND else None
+
+
 def _member_name(n):
     n = strip(n)
     if isinstance(n, dict) and n.get("k") == "un" and n.get("op") == "&":
